@@ -81,6 +81,8 @@ type Interp struct {
 	trace        bool
 	frozen       map[*Value]bool
 	globalCells  map[*Value]bool
+	globalMaps   map[*Map]bool
+	baseGlobals  map[*ssa.Global]*Value
 	sharedWrites []string
 
 	decisions []Decision
@@ -167,6 +169,7 @@ func (ex *Explorer) worker(id int) {
 		return
 	}
 	defer sol.Close()
+	var base *baseState
 	for {
 		ex.mu.Lock()
 		for len(ex.work) == 0 && ex.active > 0 {
@@ -204,7 +207,19 @@ func (ex *Explorer) worker(id int) {
 		ex.paths++
 		ex.mu.Unlock()
 
-		ex.runPath(sol, prefix)
+		if base == nil {
+			base = ex.newBase(sol)
+			if base == nil {
+				ex.mu.Lock()
+				ex.active--
+				ex.mu.Unlock()
+				ex.cond.Broadcast()
+				continue
+			}
+		}
+		if dirty := ex.runPath(sol, base, prefix); dirty {
+			base = nil
+		}
 
 		ex.mu.Lock()
 		ex.active--
@@ -220,10 +235,50 @@ func (ex *Explorer) worker(id int) {
 	ex.mu.Unlock()
 }
 
-func (ex *Explorer) runPath(sol *Solver, prefix []Decision) {
+// baseState is the per-worker result of running package initialisation once. Paths share it
+// read-only; a path that writes into it marks it dirty and it is rebuilt.
+type baseState struct {
+	tb          *TB
+	globals     map[*ssa.Global]*Value
+	initialised map[*ssa.Package]bool
+	cells       map[*Value]bool
+	maps        map[*Map]bool
+	initSteps   int
+}
+
+func (ex *Explorer) newBase(sol *Solver) (b *baseState) {
 	in := &Interp{ex: ex, prog: ex.prog, cfg: ex.cfg, tb: NewTB(), sol: sol,
 		sizes: types.SizesFor("gc", "amd64"), globals: map[*ssa.Global]*Value{}, initialised: map[*ssa.Package]bool{},
+		funcs: map[*ssa.Function]bool{}, trace: false, ghost: map[string]Value{}, usedStubs: map[string]bool{}, cuts: map[string]bool{}}
+	defer func() {
+		if r := recover(); r != nil {
+			ex.mu.Lock()
+			ex.aborts = append(ex.aborts, fmt.Sprintf("package init failed: %v", r))
+			ex.mu.Unlock()
+			b = nil
+		}
+	}()
+	in.inInit = true
+	if initFn := ex.pkg.Func("init"); initFn != nil {
+		in.callSSA(nil, initFn, nil, nil)
+	}
+	b = &baseState{tb: in.tb, globals: in.globals, initialised: in.initialised, cells: map[*Value]bool{}, maps: map[*Map]bool{}, initSteps: in.steps}
+	for _, g := range in.globals {
+		in.collectAll(g, b.cells, b.maps, 0)
+	}
+	return b
+}
+
+func (ex *Explorer) runPath(sol *Solver, base *baseState, prefix []Decision) (dirty bool) {
+	in := &Interp{ex: ex, prog: ex.prog, cfg: ex.cfg, tb: base.tb, sol: sol,
+		sizes: types.SizesFor("gc", "amd64"), globals: map[*ssa.Global]*Value{}, baseGlobals: base.globals, initialised: base.initialised,
+		globalCells: base.cells, globalMaps: base.maps,
 		decisions: prefix, funcs: map[*ssa.Function]bool{}, intMode: false, trace: ex.cfg.Trace, ghost: map[string]Value{}, usedStubs: map[string]bool{}, cuts: map[string]bool{}}
+	base.tb.Mark()
+	defer func() {
+		base.tb.Rollback()
+		dirty = len(in.sharedWrites) > 0
+	}()
 	sol.Push()
 	end := "return"
 	func() {
@@ -255,13 +310,6 @@ func (ex *Explorer) runPath(sol *Solver, prefix []Decision) {
 				}
 			}
 		}()
-		// package initialisation (concrete)
-		in.inInit = true
-		if initFn := ex.pkg.Func("init"); initFn != nil {
-			in.callSSA(nil, initFn, nil, nil)
-		}
-		in.inInit = false
-		in.steps = 0
 		in.intMode = ex.cfg.IntMode
 		in.callSSA(nil, ex.fn, nil, nil)
 		// normal end of harness: end witness + sample
@@ -291,6 +339,7 @@ func (ex *Explorer) runPath(sol *Solver, prefix []Decision) {
 	}
 	ex.symDecisions += in.symDecisions
 	ex.mu.Unlock()
+	return
 }
 
 func (in *Interp) whereAmI() string {
